@@ -1,6 +1,8 @@
 """C17 backward simulation leaves the model intact and respects dependencies"""
+import os
 import random
 
+from .. import common as C
 from .. import oracles as O
 from .. import gen, simcheck
 from ..propkit import Kit
@@ -58,7 +60,10 @@ def eval_case(case):
         if df:
             out.append(O.V("(c) forward simulate after backward_simulate differs from a fresh forward simulate",
                            "C17/forward/" + ("crash" if rec["exc"] else "ok"), df[:3]))
-    return {"violations": out, "sig": simcheck.behaviour_sig(S, trace) + (bool(op.get("due")), bool(op.get("revlog", True)), tuple(crash or ())),
+    shots = {k: rec.get("struct_%s_idx" % k) for k in ("before", "inner", "after")}
+    model = {"fresh": S.nt, "nwp": len(case.get("wps", [])), "due": bool(op.get("due")),
+             "dues": [int(t.get("due", -1)) for t in case["tasks"]], "shots": shots}
+    return {"violations": out, "model": model, "sig": simcheck.behaviour_sig(S, trace) + (bool(op.get("due")), bool(op.get("revlog", True)), tuple(crash or ())),
             "hist": dict(simcheck.base_hist(S, trace), crashed=int(rec["exc"] == "Crash")),
             "nontrivial": (rec.get("dump") or {}).get("time", 0) >= 2 or rec["exc"] == "Crash",
             "summary": {"exc": rec["exc"], "time": (rec.get("dump") or {}).get("time")}}
@@ -91,16 +96,64 @@ def gen_cases(rng, n, every_crash=False):
     return cases
 
 
+def coq_shot(sh):
+    pl = lambda l: C.coq_list(["(%d, %d)%%nat" % (a, b) for (a, b) in l])
+    nl = lambda l: C.coq_list(["%d%%nat" % a for a in l])
+    return "(%s, %s, %s, %s, %s)" % (nl(sh["task_list"]), C.coq_list([pl(l) for l in sh["in"]]), C.coq_list([pl(l) for l in sh["out"]]),
+                                     C.coq_list([nl(l) for l in sh["wp_in"]]), C.coq_list([nl(l) for l in sh["wp_out"]]))
+
+
+def model_mismatches(ctx, results, limit):
+    """Model/Backward.v backward_prepare / backward_finally against the structure
+    observed before, inside and after backward_simulate"""
+    ents = []
+    for r in results:
+        m = r.get("model")
+        if not m or not m["shots"].get("before") or not m["shots"].get("after"):
+            continue
+        sh = m["shots"]
+        inner = "None" if not sh.get("inner") else "(Some %s)" % coq_shot(sh["inner"])
+        ents.append((r["idx"], "(%d%%nat, %d%%nat, %s, %s, %s, %s, %s)" % (
+            m["fresh"], m["nwp"], "true" if m["due"] else "false", C.coq_list([C.coq_z(d) for d in m["dues"]]),
+            coq_shot(sh["before"]), inner, coq_shot(sh["after"]))))
+        if len(ents) >= limit:
+            break
+    bad = []
+    for k in range(0, len(ents), 400):
+        chunk = ents[k:k + 400]
+        path = os.path.join(ctx["work"], "backward_%d.v" % k)
+        with open(path, "w") as f:
+            f.write("From Coq Require Import List ZArith QArith.\nFrom PV Require Import Model.Types Model.Corr Model.Backward.\n"
+                    "Import ListNotations.\nOpen Scope nat_scope.\n"
+                    "Eval vm_compute in (mismatches chk_backward %s).\n" % C.coq_list([e[1] for e in chunk]))
+        lists, _ = C.coq_eval_nat_lists(path, cwd=ctx["work"])
+        bad += [chunk[j][0] for j in lists[0]]
+    return bad, len(ents)
+
+
 def run(ctx):
     rng = random.Random(ctx["seed"])
     th = ctx["tier"] == "thorough"
     cases = simcheck.load_corpus("C17") + gen_cases(rng, 12000 if th else 450, every_crash=th)
     results = simcheck.run_cases(ctx, "harness.props.c17", cases)
-    return simcheck.summarise(ctx, cases, results,
+    bad, nchk = model_mismatches(ctx, results, 6000 if th else 1500)
+    for i in bad:
+        r = next(x for x in results if x["idx"] == i)
+        r.setdefault("disagreements", []).append("Model/Backward.v backward_prepare/backward_finally disagree with the structure observed "
+                                                 "before / inside / after backward_simulate: %s" % r["model"])
+    res = summarise(ctx, cases, results, nchk)
+    return res
+
+
+def summarise(ctx, cases, results, nchk):
+    th = ctx["tier"] == "thorough"
+    res = simcheck.summarise(ctx, cases, results,
                               "random projects x both settings of considering_due_time_of_tail_tasks and reverse_log_information, "
                               "random due times; each without fault and with an exception injected at (step, phase) "
                               + ("for EVERY step 0-7 x 4 phases" if th else "for 2 random (step, phase) points")
                               + "; structure compared by object identity; later forward run compared with a fresh copy")
+    res["extra"]["structures_checked_against_model"] = nchk
+    return res
 
 
 K = Kit("C17", None)
